@@ -71,7 +71,9 @@ def gen_vector():
         v = [0.0, 0.0, 0.0]
         v[R.randrange(3)] = R.choice([1.0, -1.0])
         return s, v
-    if s == "snap-band":   # x or y inside (0, 1e-8]: Vector3d.azimuth zeroes them
+    if s == "snap-band":   # x or y inside (0, 1e-8]: the band in which Vector3d.azimuth used to round
+        # whatever the length; now only components below 1e-8 |v| are rounded (the short vectors
+        # of this stratum are outside that band, the unit vectors inside)
         k = R.choice([1.0, 1.0, 1e-8, 3e-9, 0.5])
         if k < 1e-6:
             return s, [k * c for c in rand_unit()]
@@ -86,12 +88,15 @@ def norm(v):
     return math.sqrt(v[0] ** 2 + v[1] ** 2 + v[2] ** 2)
 
 
-def is_short(v):
-    return 0 < norm(v) < 1e-8
-
-
 def in_snap_band(v):
+    """the absolute band of the former azimuth rounding (names the stratum of the repaired defect)"""
     return any(0 < abs(c) <= 1e-8 for c in v[:2])
+
+
+def in_rel_band(v):
+    """x or y is rounded by Vector3d.azimuth: 0 < |c| <= 1e-8 |v| (with a margin for float rounding)"""
+    n = norm(v)
+    return any(0 < abs(c) <= 1.0000001e-8 * n for c in v[:2])
 
 
 # ------------------------------------------------------------ forward projection
@@ -108,10 +113,23 @@ def do_proj():
     # ---- oracle: which vectors must be returned, where, and the round trip
     inv = InverseStereographicProjection(pole)
     V = Vector3d(np.array(vs, dtype=float))
-    mask = np.atleast_1d(V <= sp.region)
+    # the documented selection: the hemisphere test on the UNIT vectors
+    mask = np.atleast_1d(V.unit <= sp.region)
     rep = {"pole": pole, "vs": vs, "out": out}
     if int(mask.sum()) != len(out):
-        fail("vector2xy:selection", f"vector2xy(pole={pole}) returned {len(out)} points, {int(mask.sum())} vectors "
+        raw = np.atleast_1d(V <= sp.region)
+        if int(raw.sum()) == len(out):
+            # the implementation tests the vectors as given: name the first vector it gets wrong
+            for v, m, mr in zip(vs, mask, raw):
+                if bool(m) != bool(mr):
+                    n = norm(v)
+                    tag = ":unnormalised-test" if n < 1 and abs(v[2]) < 1e-9 else ""
+                    fail("vector2xy:selection" + tag,
+                         f"vector {v} (unit z = {v[2] / n if n else 0.0}) is {'returned' if mr else 'not returned'} by "
+                         f"vector2xy(pole={pole}): the hemisphere test -pole*z > -1e-9 is made on the un-normalised "
+                         f"vector", rep)
+                    return
+        fail("vector2xy:selection", f"vector2xy(pole={pole}) returned {len(out)} points, {int(mask.sum())} unit vectors "
              f"satisfy v <= region", rep)
         return
     k = 0
@@ -203,10 +221,24 @@ def do_split():
         return
     V = Vector3d(np.array(vs, dtype=float))
     from orix.projections.stereographic import _LOWER_HEMISPHERE, _UPPER_HEMISPHERE
-    mu = np.atleast_1d(V <= _UPPER_HEMISPHERE)
-    ml = np.atleast_1d(V <= _LOWER_HEMISPHERE)
+    # the documented assignment: the hemisphere tests on the UNIT vectors
+    mu = np.atleast_1d(V.unit <= _UPPER_HEMISPHERE)
+    ml = np.atleast_1d(V.unit <= _LOWER_HEMISPHERE)
     if (int(mu.sum()), int(ml.sum())) != (len(up), len(lo)):
-        fail("split:assignment", "vector2xy_split does not return the vectors selected by v <= hemisphere",
+        ru = np.atleast_1d(V <= _UPPER_HEMISPHERE)
+        rl = np.atleast_1d(V <= _LOWER_HEMISPHERE)
+        if (int(ru.sum()), int(rl.sum())) == (len(up), len(lo)):
+            # the implementation tests the vectors as given: name the first vector it gets wrong
+            for v, a, b, a2, b2 in zip(vs, mu, ml, ru, rl):
+                if (bool(a), bool(b)) != (bool(a2), bool(b2)):
+                    n = norm(v)
+                    tag = ":unnormalised-test" if n < 1 and abs(v[2]) < 1e-9 else ""
+                    fail("split:assignment" + tag,
+                         f"vector {v} (unit z = {v[2] / n if n else 0.0}) is assigned upper={bool(a2)} "
+                         f"lower={bool(b2)} by vector2xy_split (the hemisphere test is made on the un-normalised "
+                         f"vector)", {"vs": vs, "up": up, "lo": lo})
+                    return
+        fail("split:assignment", "vector2xy_split does not return the vectors selected by v.unit <= hemisphere",
              {"vs": vs, "up": up, "lo": lo})
         return
     for v, a, b in zip(vs, mu, ml):
@@ -233,7 +265,7 @@ def do_to_polar():
             if s != "zero":
                 break
         vs.append(v); st("to_polar/" + s)
-    a, p, r = Vector3d(np.array(vs, dtype=float)).to_polar(degrees=deg)   # fresh array: to_polar mutates it
+    a, p, r = Vector3d(np.array(vs, dtype=float)).to_polar(degrees=deg)
     out = [[float(x), float(y), float(z)] for x, y, z in zip(a, p, r)]
     if any(math.isnan(c) for o in out for c in o):
         st("to_polar/nan-output")
@@ -283,7 +315,7 @@ def do_from_polar():
             fail("from_polar:roundtrip", f"to_polar(from_polar({a}, {p}, {r})) = {a2[0], p2[0], r2[0]} (degrees={deg})",
                  {"apr": apr, "deg": deg})
             return
-        if 1e-3 * half < p < half * (1 - 1e-3) and not in_snap_band(w):
+        if 1e-3 * half < p < half * (1 - 1e-3) and not in_rel_band(w):
             d = abs(a2[0] - a) % full
             if min(d, full - d) > 1e-7 * full:
                 fail("from_polar:roundtrip", f"azimuth of from_polar({a}, {p}, {r}) comes back as {a2[0]} (degrees={deg})",
@@ -312,9 +344,7 @@ def gen_pdf_vectors(n):
         elif mode == "cluster":
             v = [c[i] + R.gauss(0, 0.15) for i in range(3)]
         else:
-            _, v = gen_vector()
-            if is_short(v) or in_snap_band(v):
-                v = rand_unit()
+            _, v = gen_vector()      # all strata, short vectors and the rounding band included
         vs.append(v)
     return mode, vs
 
